@@ -21,6 +21,18 @@ struct Entry {
     seeds: fn() -> Vec<Vec<Vec<u8>>>,
 }
 
+/// A message event whose bundled `m.replace` relation is again such an event, `depth` times
+/// (`BundledMessageLikeRelations` re-parses the relation from its raw text, so the nesting limit of
+/// the JSON parser starts again at every level: reported by a seeding sub-agent).
+fn nested_replace(depth: usize) -> String {
+    let mut t = String::new();
+    for i in 0..depth {
+        let head = format!(r##"{{"type":"m.room.message","content":{{"msgtype":"m.text","body":"x"}},"event_id":"$e{i}","sender":"@a:b","origin_server_ts":1"##);
+        t = if i == 0 { format!("{head}}}") } else { format!(r##"{head},"unsigned":{{"m.relations":{{"m.replace":{t}}}}}}}"##) };
+    }
+    t
+}
+
 fn s1(xs: &[&str]) -> Vec<Vec<Vec<u8>>> {
     xs.iter().map(|x| vec![x.as_bytes().to_vec()]).collect()
 }
@@ -183,7 +195,7 @@ fn entries() -> Vec<Entry> {
         // ---- JSON ---------------------------------------------------------------------------------
         Entry { id: 40, name: "CanonicalJsonValue (from_slice, try_from Value, to_canonical_value)", kinds: &[Json], f: e_canonical_json, seeds: || s1(&[r##"{"a":[1,-2,{"b":null,"c":true}],"d":"eé👍","f":{},"g":9007199254740991}"##, SIGNED]) },
         Entry { id: 41, name: "AnyTimelineEvent", kinds: &[Json], f: e_any_timeline, seeds: || s1(&[EV_MESSAGE, EV_MEMBER, EV_CREATE, EV_POWER, EV_REDACTION, EV_REDACTED, EV_ENCRYPTED, EV_REACTION, EV_JOIN_RULES, EV_IMAGE, EV_POLL, EV_CUSTOM]) },
-        Entry { id: 42, name: "AnySyncTimelineEvent", kinds: &[Json], f: e_any_sync_timeline, seeds: || s1(&[EV_MESSAGE, EV_MEMBER, EV_REDACTED, EV_ENCRYPTED, EV_IMAGE, EV_CUSTOM]) },
+        Entry { id: 42, name: "AnySyncTimelineEvent", kinds: &[Json], f: e_any_sync_timeline, seeds: || { let mut v = s1(&[EV_MESSAGE, EV_MEMBER, EV_REDACTED, EV_ENCRYPTED, EV_IMAGE, EV_CUSTOM]); for d in [1usize, 2, 20, 120, 130, 300, 1000, 4000] { v.push(vec![nested_replace(d).into_bytes()]); } v } },
         Entry { id: 43, name: "AnyStateEvent", kinds: &[Json], f: e_any_state, seeds: || s1(&[EV_MEMBER, EV_CREATE, EV_POWER, EV_JOIN_RULES, EV_POLL, EV_CUSTOM]) },
         Entry { id: 44, name: "AnySyncStateEvent", kinds: &[Json], f: e_any_sync_state, seeds: || s1(&[EV_MEMBER, EV_CREATE, EV_POWER, EV_JOIN_RULES]) },
         Entry { id: 45, name: "AnyStrippedStateEvent", kinds: &[Json], f: e_any_stripped_state, seeds: || s1(&[EV_STRIPPED, EV_MEMBER, EV_CREATE]) },
